@@ -38,6 +38,8 @@ ALL_CLIENTS = sorted({c for v in FAMILIES.values() for c in v})
 LAYOUTS = [
     ("top", "core"), ("top", "shared.core"), ("top", "a.b.core"), ("top", "a.b.c.core"), ("top", "c1.core"),
     ("top", "c1.x.core"),
+    # core directory whose NAME merely starts with a client's directory name (not inside it)
+    ("top", "c1_core"), ("top", "c1x.core"),
     ("nested2", "core"), ("nested2", "clients.core"), ("nested2", "clients.shared.core"),
     ("nested2", "clients.alpha.core"),
     ("nested3", "x.core"), ("nested3", "x.y.core"), ("nested3", "shared.core"),
